@@ -175,7 +175,7 @@ def c17_escape_class(cls: int, cp: int, nxt: int) -> bool:
 
 
 # ---------------------------------------------------------------- overload selection on real Element trees
-def mk_member(name, params, brief):
+def mk_member(name, params, brief, pdocs=False):
     md = ET.Element("memberdef", {"kind": "function"})
     ET.SubElement(md, "name").text = name
     ET.SubElement(md, "argsstring").text = "(...)"
@@ -189,7 +189,13 @@ def mk_member(name, params, brief):
     b = ET.SubElement(md, "briefdescription")
     if brief is not None:
         ET.SubElement(b, "para").text = brief
-    ET.SubElement(md, "detaileddescription")
+    dd = ET.SubElement(md, "detaileddescription")
+    if pdocs and params:
+        pl = ET.SubElement(ET.SubElement(dd, "para"), "parameterlist", {"kind": "param"})
+        for pname, _d in params:
+            it = ET.SubElement(pl, "parameteritem")
+            ET.SubElement(ET.SubElement(it, "parameternamelist"), "parametername").text = pname
+            ET.SubElement(ET.SubElement(it, "parameterdescription"), "para").text = "about %s in %s" % (pname, brief)
     return md
 
 
@@ -206,7 +212,8 @@ def expected_doc(members, query):
         if len(query) != req and len(query) != tot:
             continue
         if all(params[i][0] == q for i, q in enumerate(query)):
-            hits.append(brief)
+            # the member's own documentation: its brief and the description of every parameter named in the query
+            hits.append((brief + "\n" + "".join("%s: about %s in %s\n" % (n, n, brief) for n, _d in params[:len(query)])).strip())
     return hits
 
 
@@ -215,10 +222,10 @@ def c17_overloads(shape: int, q: int, sym: str) -> bool:
     1-3 member definitions with 0-3 parameters (some defaulted, one name symbolic), queried with the argument
     names of each declared overload in turn: the returned text is the brief of the matching member(s), in
     document order when indistinguishable, '' when none matches; never an exception.
-    pre: 0 <= shape < 12 and 0 <= q < 4 and pipe.is_ident(sym, 1, 3) and sym not in POOLN
+    pre: 0 <= shape < 15 and 0 <= q < 4 and pipe.is_ident(sym, 1, 3) and sym not in POOLN
     post: _
     """
-    shape, q = pick(shape, 0, 12), pick(q, 0, 4)
+    shape, q = pick(shape, 0, 15), pick(q, 0, 4)
     SH = [
         [([("key", False), ("value", False)], "kv"), ([("value", False), ("key", False)], "vk")],
         [([("key", False)], "one"), ([("key", False), ("value", True)], "two")],
@@ -232,10 +239,13 @@ def c17_overloads(shape: int, q: int, sym: str) -> bool:
         [([("key", False), ("value", False)], "kv"), ([("key", False), ("value", False)], "kv2"), ([("key", False)], "k")],
         [],
         [([("value", False), (sym, True)], "v-s")],
+        [([("key", False)], "k"), ([("x", False), ("key", True)], "x-optkey")],                      # another overload's optional parameter has the queried name
+        [([("key", False), ("value", False)], "kv"), ([("x", False), ("key", False), ("value", True)], "xk-optv"), ([("x", False), ("value", True)], "x-optv")],
+        [([(sym, False)], "s"), ([("key", False), (sym, True)], "k-opts"), ([("value", False), ("x", True), (sym, True)], "v-optx-opts")],
     ][shape]
     QUERIES = [["key", "value"], ["key"], [], ["value", "key"], [sym], ["key", sym], ["x"], ["value"], ["key", "value", "x"], ["key", "x", "value"], ["value", sym], [sym, "x", "value"]]
     xp = XMLDocParser()
-    elems = [mk_member("f", ps, br) for ps, br in SH]
+    elems = [mk_member("f", ps, br, pdocs=True) for ps, br in SH]
     xp.get_member_defs = lambda *a, **k: elems
     ok = True
     qs = [QUERIES[(q * 3 + j + shape) % len(QUERIES)] for j in range(3)]
@@ -341,8 +351,8 @@ def conds(tier):
                 bounds="all texts of length <= %d over all Unicode scalar values" % (2 if q else 3)),
         xh.Cond(M, "c17_escape_class", t(300, 1800), examples=["cls=0, cp=7, nxt=11", "cls=2, cp=160, nxt=10", "cls=6, cp=128512, nxt=22", "cls=1, cp=92, nxt=23"],
                 bounds="7 code-point classes x symbolic code point in the class x %d following characters (hex digits, quote, backslash, ?, other)" % len(FOLLOW)),
-        xh.Cond(M, "c17_overloads", t(300, 1800), examples=["shape=0, q=0, sym='id'", "shape=4, q=1, sym='id'", "shape=9, q=0, sym='zz'"],
-                bounds="12 member-definition shapes x 12 queries x symbolic parameter name (len <= 3)"),
+        xh.Cond(M, "c17_overloads", t(300, 1800), examples=["shape=0, q=0, sym='id'", "shape=4, q=1, sym='id'", "shape=9, q=0, sym='zz'", "shape=12, q=0, sym='a'", "shape=13, q=2, sym='a'", "shape=14, q=1, sym='b'"],
+                bounds="15 member-definition shapes (with per-parameter documentation) x 12 queries x symbolic parameter name (len <= 3)"),
         xh.Cond(M, "c17_partial_xml", t(120, 600), kind="shape-bounded", examples=["shape=1", "shape=5"], bounds="6 partial-XML shapes"),
         xh.Cond(M, "c17_nothing_else_changes", t(200, 900), kind="shape-bounded", examples=["n=2, k=1, role=0"], bounds="0-2 args x defaults x 3 roles"),
     ]
